@@ -157,6 +157,27 @@ CHECKS = {
    note="known findings (flow wrappers with complex keys or payload variants inside, empty_as_braces off, empty literal in Option, "
         "indent 4 with complex keys) suppress only matching values; " + TRUST,
    technique="TLA+ value grammar with decorations (Emitter.tla) enumerated by TLC + TLC trace validation of recorded round trips"),
+ "C14": dict(
+   category="model_checking",
+   text="AnchorStore.tla models the serializer's ptr->id table (first sight defines, later sights alias, dangling weak = null) "
+        "and the deserializer's id->allocation store, and states the property as equality of pointer-equality partitions; TLC "
+        "checks it for every graph up to a bound (and that weak-before-strong cannot be read back); every graph is built from the "
+        "real Rc and Arc wrappers in sequences, maps and structs, round-tripped by the real crate and compared by ptr_eq classes; "
+        "recursive wrappers are exercised on every parent chain with every back-edge choice; decided by the TLA+ trace validator.",
+   design_ref="DESIGN.md section 4 C14",
+   note="bounded: <= 4/5 fields over 3 allocations exhaustively, random to 9 fields; chains to length 3/4; " + TRUST,
+   technique="TLA+ model (AnchorStore.tla) checked by TLC + TLC trace validation of recorded pointer-equality classes"),
+ "C15": dict(
+   category="model_checking",
+   text="AnchorStore.tla's call-history part models the thread-local state (context stack, store, in-progress set) under nested "
+        "scopes, errors and unwinding; TLC checks CleanAtBoundary and NestedTransparent on all histories; every history of calls "
+        "up to a bound over 11 call kinds is executed on one thread against the real crate, each call compared with the same call "
+        "on a fresh thread (the property's own oracle), with cfg-guarded hooks snapshotting the thread-local state after each "
+        "call and around each nested call; decided by the TLA+ trace validator.",
+   design_ref="DESIGN.md section 4 C15",
+   note="bounded: histories of <= 3/4 calls exhaustively, random to 15 calls; hash seeds are not observable through the API and are "
+        "not covered; " + TRUST,
+   technique="TLA+ model (AnchorStore.tla histories) checked by TLC + TLC trace validation of recorded call histories with state snapshots"),
 }
 
 NOT_YET = "check not built yet (work in progress); it will be claimed once its TLA+ model and conformance harness are registered"
